@@ -557,10 +557,44 @@ pub fn gen_c12(rng: &mut Rng, thorough: bool) -> Vec<Tagged> {
                 }
             }
             let tol = *rng.pick(&[1e-6f32, 0.1, 0.5, 10.0]);
+            // a soft-max hidden layer in front of a non-soft-max output: accuracy stays the tolerance rule
+            let mut hidden_sm = false;
+            if !softmax && r % 3 == 1 {
+                let nl = spec.layers.len();
+                for k in 0..nl.saturating_sub(1) {
+                    if let LayerSpec::One(Simple::Dense { act, .. }) = &mut spec.layers[k] {
+                        *act = Act::Softmax;
+                        hidden_sm = true;
+                        break;
+                    }
+                }
+            }
+            if hidden_sm {
+                out.push((format!("validate-n{}-hidden-softmax", n), Case::Net(spec.clone(), NetCmd::Validate { data: data.clone(), tol, pre_training: false })));
+            }
             out.push((format!("validate-n{}{}", n, if softmax { "-softmax" } else { "" }), Case::Net(spec.clone(), NetCmd::Validate { data: data.clone(), tol, pre_training: false })));
             out.push((format!("predict-batch-n{}", n), Case::Net(spec.clone(), NetCmd::PredictBatch(data.iter().map(|d| d.0.clone()).collect()))));
             out.push(("predict-vs-forward".into(), Case::Net(spec, NetCmd::Forward(data[0].0.clone()))));
         }
+    }
+    // dense chains with a soft-max HIDDEN layer and a non-soft-max output: the accuracy rule follows the output layer
+    for _ in 0..(if thorough { 60 } else { 10 }) {
+        let nw = rng.range(2, 4);
+        let nout = rng.range(1, 3);
+        let mut spec = NetSpec::new(Sh::Flat(nw).to_shape());
+        let mut ws = vec![];
+        let acts = [Act::Softmax, *rng.pick(&[Act::Tanh, Act::Linear, Act::Sigmoid])];
+        for (k, a) in acts.iter().enumerate() {
+            let d = Simple::Dense { out: if k == 1 { nout } else { nw }, act: *a, bias: rng.coin(), dropout: None };
+            ws.push(LW::One(rand_w(rng, &d, Sh::Flat(nw), 2)));
+            spec.layers.push(LayerSpec::One(d));
+        }
+        spec.weights = Some(ws);
+        spec.obj = *rng.pick(&[Obj::MSE, Obj::MAE]);
+        let nd = *rng.pick(&[1usize, 3, 5]);
+        let data = rand_data(rng, nd, Sh::Flat(nw), Sh::Flat(nout), spec.obj);
+        let tol = *rng.pick(&[0.1f32, 0.5, 1.0]);
+        out.push(("validate-hidden-softmax-chain".into(), Case::Net(spec, NetCmd::Validate { data, tol, pre_training: false })));
     }
     // networks with skip connections: predict / predict_batch / validate must honour them like forward
     for r in 0..(if thorough { 60 } else { 10 }) {
